@@ -288,6 +288,31 @@ func Absent() map[string]interface{} {
 	}
 }
 
+// AbsentB has other shapes at the selectors of Absent: where Absent has a map lacking a key, AbsentB has no such
+// parent at all, a struct, a list, or the key present - so that an evaluator reused across both must not carry
+// anything over from one document to the next.
+func AbsentB() map[string]interface{} {
+	type M2 struct {
+		A     int
+		Inner map[string]int
+	}
+	d := Absent()
+	d["m"] = M2{A: 1, Inner: map[string]int{"zz": 7}}
+	d["ms"] = []string{"a"}
+	delete(d, "nm")
+	d["em"] = map[string]int{"zz": 1}
+	d["nilm"] = 5
+	d["mi"] = map[string]string{"2": "two"}
+	d["pm"] = nil
+	d["st"] = map[string]interface{}{"A": 1, "M": map[string]int{"zz": 3}, "Zz": "now-present"}
+	d["pst"] = map[string]interface{}{"M": 5}
+	d["l"] = map[string]interface{}{"0": "not-a-list"}
+	d["s"] = map[string]interface{}{"zz": "deep"}
+	d["n"] = map[string]int{}
+	d["w"] = map[string]interface{}{"a": 2}
+	return d
+}
+
 // EqDoc has, for every scalar kind, values that short literal texts can denote and boundary values.
 func EqDoc() map[string]interface{} {
 	return map[string]interface{}{
@@ -416,7 +441,7 @@ func World(name string) []Doc {
 	case "secrets-pointer":
 		return secretPair(NewTagged3("bee", "jay", "s3cr3t"), NewTagged3("bee", "jay", "0ther"), "sp")
 	case "absent":
-		return []Doc{{"absent", Absent()}}
+		return []Doc{{"absent", Absent()}, {"absent-b", AbsentB()}, {"absent-again", Absent()}}
 	case "conts":
 		return Conts()
 	case "maps":
